@@ -615,6 +615,11 @@ func instrumentPackage(fset *token.FileSet, imp types.Importer, lp *listPkg, pi 
 			if edits[a].off != edits[b].off {
 				return edits[a].off > edits[b].off
 			}
+			// at one offset a replacement goes first, so that what is inserted there (a yield in
+			// front of a rewritten go statement) ends up before it and is not eaten by it
+			if (edits[a].del > 0) != (edits[b].del > 0) {
+				return edits[a].del > 0
+			}
 			return edits[a].seq > edits[b].seq
 		})
 		res := append([]byte(nil), src...)
